@@ -24,7 +24,7 @@ Not decided: the verdict on actual frames (needs executing the decoder over
 generated streams — a different technique family)."""
 import re
 
-from ..thir import Evaluator, Bits, Agg, Sym, Cond, ckey, vkey, Unsupported
+from ..thir import Evaluator, Bits, Agg, Sym, Cond, Obj, ckey, vkey, Unsupported
 from ..emit import codes_in, first_literal, macro_source
 from ..mir import show_origin
 
@@ -556,50 +556,63 @@ def r132(ctx, rep, f, ev, cg, reach, O):
         rep.check(ok, "R13.2", "R13.2|lane-data|bytes", "lane key = byte 9 (find and new), lane data = bytes 0..=8 (append and new)", WA,
                   "store_lane_data uses index constants %s and ranges %s; expected key byte 9 twice and 0..=8 twice" % (idx, rng))
     # frame open/close
+    # decided per case: the word's flag bit (continuation / packet_done, set in the wire image of the parsed word) ×
+    # readout-frame validator absent / present and idle / present and inside a frame — whether the flag is read from the
+    # parsed word before it is stored or from the container afterwards
+    SW = "fastpasta::words::its::status_words::"
+    RFVT = RFV.rsplit("::", 2)[0]
+
+    def _frame_events(fn_, word_adt, bit, load_sfx, getter_sfx, callee_sfx):
+        res = {}
+        for flag, bg in ((0, 0), (1, 0), (0, (1 << 80) - 1), (1, (1 << 80) - 1)):      # every other bit of the word 0, then 1
+            for val in ("none", "idle", "in-frame"):
+                if (flag, val) in res and res[(flag, val)][0] in ("undecided", "unevaluable"):
+                    continue
+                prev = res.get((flag, val))
+                rv = Agg("core::option::Option", "None", {}) if val == "none" else \
+                    Agg("core::option::Option", "Some", {"0": Agg(RFVT, "ItsReadoutFrameValidator", {"is_readout_frame": Cond("true" if val == "in-frame" else "false")})})
+                slf = Agg("CdpRunningValidator", "CdpRunningValidator", {"readout_frame_validator": rv, "status_words": Sym("SWC"), "tracker": Sym("TRK")})
+                word = Obj("WORD", 0, word_adt)
+                ev.assume = {}
+                ev.assume_bits("WORD", 0, 80, bg)
+                ev.assume_bits("WORD", bit, 1, flag)
+                ev.call_hooks = [(lambda f_, r_: (r_ or f_).endswith(load_sfx), lambda n, a: Agg("core::result::Result", "Ok", {"0": word})),
+                                 (lambda f_, r_: (r_ or f_).endswith(getter_sfx), lambda n, a: Agg("core::option::Option", "Some", {"0": word})),
+                                 (lambda f_, r_: (r_ or f_).endswith("::current_word_mem_pos"), lambda n, a: Sym("WORD_POS")),
+                                 (lambda f_, r_: (r_ or f_).endswith(("::sanity_check_tdh", "::sanity_check_tdt")), lambda n, a: Agg("core::result::Result", "Ok", {"0": ()}))]
+                ev.watch = lambda c: c.endswith(callee_sfx) or c.endswith(("::replace_tdh", "::replace_tdt"))
+                try:
+                    recs = [o for o in ev.collect_ifs(fn_, [slf, Sym("sl")], follow=lambda c: c.startswith(RFV) and c.endswith(("::is_in_frame", "::is_readout_frame")))
+                            if "call" in o and not any(g in ("false", "not true") for g in o["guard"])]
+                    und = [g for o in recs for g in o["guard"] if g not in ("true", "not false")]
+                    names = [o["call"].split("::")[-1] for o in recs]
+                    tgt = [o for o in recs if o["call"].endswith(callee_sfx)]
+                    res[(flag, val)] = ("undecided", und[:1]) if und else (len(tgt), [o["args"][1:] for o in tgt], names.index(callee_sfx.split("::")[-1]) > min([i for i, n_ in enumerate(names) if n_.startswith("replace_")] or [99]) if tgt else None)
+                except Unsupported as e:
+                    res[(flag, val)] = ("unevaluable", str(e)[:80])
+                finally:
+                    ev.call_hooks = []
+                    ev.watch = None
+                    ev.assume = {}
+                if prev is not None and res[(flag, val)] != prev:
+                    res[(flag, val)] = ("depends on other bits of the word", [prev, res[(flag, val)]])
+        return res
     pt = CDP + "preprocess_tdh"
     if pt in f.fns:
-        ev.bitfields = True   # the TDH flag word as named bits: continuation is bit 14 however it is masked / shifted
-        try:
-            out = [o for o in ev.collect_ifs(pt, [Sym("self"), Sym("sl")]) if "cond" in o]
-        finally:
-            ev.bitfields = False
-        op = [o for o in out if "readout_frame_validator" in ckey(o["cond"])]
-        want = ("and[none(unwrap(sym(self.status_words.tdhs.current_tdh)).trigger_type_internal_trigger_no_data_continuation_reserved2[14]);"
-                "symc(isSome(sym(self.readout_frame_validator)));symc(sym(Not(sym(payload(sym(self.readout_frame_validator),Some).is_readout_frame))))]")
-        ok = len(op) == 1 and ckey(op[0]["cond"]) == want
-        tb = ev.tb(pt)
-        nf = [(x, n) for x, n in tb.calls() if (n.get("fn") or "").endswith("::new_frame")]
-        posok = False
-        if len(nf) == 1 and ok:
-            b = cg.body(pt)
-            site = [(bb, t) for bb, t, cal, c in b.calls() if cal and cal.endswith("::new_frame")]
-            posok = len(site) == 1 and "current_word_mem_pos" in show_origin(b.origin(site[0][1]["args"][1]))
-            # replace_tdh before the test
-            rp = [bb for bb, t, cal, c in b.calls() if cal and cal.endswith("::replace_tdh")]
-            posok = posok and len(rp) == 1 and b.dominates(rp[0], site[0][0])
-        rep.check(ok and posok, "R13.2", "R13.2|open", "a frame opens at a TDH with continuation == 0 when no frame is open; start = that word's position", WC,
-                  "frame opening condition is %s (start from word position: %s)" % ([ckey(o["cond"])[:300] for o in op], posok))
+        got = _frame_events(pt, SW + "tdh::Tdh", 14, "::load", "StatusWordContainer::tdh", "::new_frame")
+        want = {(fl_, val_): ((1, [["sym(WORD_POS)"]], True) if (fl_ == 0 and val_ == "idle") else (0, [], None)) for fl_ in (0, 1) for val_ in ("none", "idle", "in-frame")}
+        rep.check(got == want, "R13.2", "R13.2|open", "a frame opens at a TDH with continuation == 0 when no frame is open; start = that word's position (after the TDH was stored)", WC,
+                  "frame opening per (continuation, validator state) deviates: %s" % {k_: v_ for k_, v_ in got.items() if v_ != want[k_]})
     else:
         rep.missing("R13.2", pt)
     ptt = CDP + "preprocess_tdt"
     if ptt in f.fns:
-        ev.bitfields = True   # the TDT flag byte as named bits: packet_done is bit 0 of it, however it is tested
-        try:
-            out = [o for o in ev.collect_ifs(ptt, [Sym("self"), Sym("sl")]) if "cond" in o]
-        finally:
-            ev.bitfields = False
-        cl = [o for o in out if "readout_frame_validator" in ckey(o["cond"])]
-        want = "and[any(unwrap(sym(self.status_words.tdt)).res0_lane_starts_violation_res1_transmission_timeout_packet_done[0]);symc(isSome(sym(self.readout_frame_validator)))]"
-        ok = len(cl) == 1 and ckey(cl[0]["cond"]) == want
-        if ok:
-            t2 = cl[0]["tb"]
-            ok = any((n.get("fn") or "").endswith("::process_readout_frame") for _, n in t2.calls(t2.exprs[cl[0]["node"]]["then"]))
-            b = cg.body(ptt)
-            rp = [bb for bb, t, cal, c in b.calls() if cal and cal.endswith("::replace_tdt")]
-            pr = [bb for bb, t, cal, c in b.calls() if cal and cal.endswith("::process_readout_frame")]
-            ok = ok and len(rp) == 1 and len(pr) == 1 and b.dominates(rp[0], pr[0])
-        rep.check(ok, "R13.2", "R13.2|close", "a frame is closed and processed at a TDT with packet_done (after the TDT was stored)", WC,
-                  "frame closing condition is %s" % [ckey(o["cond"])[:300] for o in cl])
+        got = _frame_events(ptt, SW + "tdt::Tdt", 64, "::load", "StatusWordContainer::tdt", "::process_readout_frame")
+        want = {(fl_, val_): ((1, [[]], True) if (fl_ == 1 and val_ != "none") else (0, [], None)) for fl_ in (0, 1) for val_ in ("none", "idle", "in-frame")}
+        rep.check(got == want, "R13.2", "R13.2|close", "a frame is closed and processed at a TDT with packet_done (after the TDT was stored)", WC,
+                  "frame closing per (packet_done, validator state) deviates: %s" % {k_: v_ for k_, v_ in got.items() if v_ != want[k_]})
+    else:
+        rep.missing("R13.2", ptt)
     prf = CDP + "process_readout_frame"
     tb = ev.tb(prf)
     if tb is not None:
